@@ -307,6 +307,7 @@ def focus_case(rng, shape, kind, boundary=None):
             ap = {'kind': 'gauss', 'w0': w0}
         else:
             ap = {'kind': kind, 'a': rng.uniform(0.27, 0.34) * n * dx}
+            if ap["a"] ** 2 < 5.5 * lam * f: continue       # Fresnel number a^2 / (lam f) >= 5.5: a lens that actually focuses
         if boundary == 'negative': f = -f
         return {'shape': list(shape), 'dx': dx, 'lam': lam, 'f': f, 'aperture': ap}
     raise RuntimeError('no focus case in the validity window for shape %r' % (shape,))
@@ -342,6 +343,7 @@ def gen_inputs(ctx, scale=1):
     for rep in range(scale * (3 if ctx.thorough else 2)):
         for shape in sizes[:3] + ([(160, 160), (256, 256)] if ctx.thorough else []):
             for kind in ('gauss', 'circ', 'square'):
+                if kind != 'gauss' and min(shape) < 96: continue      # a hard aperture that focuses sharply (Fresnel number >= 5.5) needs the larger grids
                 b = [None, 'near', 'far', 'negative', None][j % 5]; j += 1
                 fc = focus_case(rng, shape, kind, b)
                 for api, m in combos():
@@ -465,7 +467,7 @@ def correspondence(ctx, cases):
         terms.append('qz (q_predict %s %s %s %s)' % tuple('(%s)%%Q' % qlit(v) for v in key))
     if not terms:
         ctx.obligation('correspondence:closed-form', False, 'no case'); return
-    vals = ctx.coq_eval(PRE, terms, label='closedform', chunk=60)
+    vals = ctx.coq_eval(PRE, terms, label='closedform', chunk=5)
     bad = 0
     for v, key in zip(vals, metas):
         if v is None: bad += 1; continue
